@@ -11,9 +11,40 @@ use std::cell::Cell;
 #[derive(PartialEq, Clone, Copy, Debug)]
 pub enum Flow { Next, CutFail(usize), Halt }
 
-pub struct Ctx<'a> { pub kb: &'a KnowledgeBase, pub steps: Cell<usize>, pub limit: usize, pub levels: Cell<usize>, pub cut_ran: std::cell::RefCell<std::collections::HashSet<usize>> }
+pub struct Ctx<'a> { pub kb: &'a KnowledgeBase, pub steps: Cell<usize>, pub limit: usize, pub levels: Cell<usize>, pub cut_ran: std::cell::RefCell<std::collections::HashSet<usize>>, pub cyclic: Cell<bool> }
 
 type SS<'a> = Rc<SubstitutionSet<'a>>;
+
+/// does some variable reach itself through its binding (a program that would need the occurs check)?  Such programs are
+/// outside every claim (C08) and would send the engine's printing into unbounded recursion.
+pub fn cyclic(ss: &SubstitutionSet) -> bool {
+    fn vars_of(t: &Unifiable, out: &mut Vec<usize>) {
+        match t {
+            Unifiable::LogicVar { id, .. } => out.push(*id),
+            Unifiable::SComplex(ts) => for x in ts { vars_of(x, out) },
+            Unifiable::SFunction { terms, .. } => for x in terms { vars_of(x, out) },
+            Unifiable::SLinkedList { term, next, .. } => { vars_of(term, out); vars_of(next, out); },
+            _ => {},
+        }
+    }
+    // colour: 0 unseen, 1 on the stack, 2 done
+    fn visit(i: usize, ss: &SubstitutionSet, colour: &mut Vec<u8>) -> bool {
+        if i >= ss.len() { return false; }
+        if colour[i] == 1 { return true; }
+        if colour[i] == 2 { return false; }
+        colour[i] = 1;
+        if let Some(t) = &ss[i] {
+            let mut vs = vec![];
+            vars_of(t, &mut vs);
+            for v in vs { if visit(v, ss, colour) { return true; } }
+        }
+        colour[i] = 2;
+        false
+    }
+    let mut colour = vec![0u8; ss.len()];
+    for i in 0..ss.len() { if visit(i, ss, &mut colour) { return true; } }
+    false
+}
 
 pub fn solve<'a>(ctx: &Ctx<'a>, goal: &Goal, level: usize, ss: &SS<'a>, cont: &mut dyn FnMut(&SS<'a>) -> Flow) -> Flow {
     ctx.steps.set(ctx.steps.get() + 1);
@@ -28,6 +59,7 @@ pub fn solve<'a>(ctx: &Ctx<'a>, goal: &Goal, level: usize, ss: &SS<'a>, cont: &m
                 let rule = get_rule(ctx.kb, &key, i);
                 let head = rule.get_head();
                 if let Some(s1) = head.unify(c, ss) {
+                    if cyclic(&s1) { ctx.cyclic.set(true); return Flow::Halt; }
                     let body = rule.get_body();
                     let r = if body == Goal::Nil { cont(&s1) } else {
                         solve(ctx, &body, my, &s1, &mut |s2| {
@@ -66,8 +98,10 @@ pub fn solve<'a>(ctx: &Ctx<'a>, goal: &Goal, level: usize, ss: &SS<'a>, cont: &m
             let res: Option<SS<'a>> = match b.functor.as_str() {
                 "!" => { ctx.cut_ran.borrow_mut().insert(level); let r = cont(ss); return if r == Flow::Next { Flow::CutFail(level) } else { r }; },
                 "fail" => None,
-                "nl" | "print" | "print_list" => Some(Rc::clone(ss)),
-                "unify" => { let t = b.terms.as_ref().unwrap(); t[0].unify(&t[1], ss) },
+                "nl" => { print!("\n"); Some(Rc::clone(ss)) },
+                "print" => { next_solution_print(b.clone(), ss); Some(Rc::clone(ss)) },
+                "print_list" => { next_solution_print_list(b.clone(), ss); Some(Rc::clone(ss)) },
+                "unify" => { let t = b.terms.as_ref().unwrap(); let r = t[0].unify(&t[1], ss); if let Some(s1) = &r { if cyclic(s1) { ctx.cyclic.set(true); return Flow::Halt; } } r },
                 "equal" => bip_equal(b.clone(), ss),
                 "less_than" => bip_less_than(b.clone(), ss),
                 "less_than_or_equal" => bip_less_than_or_equal(b.clone(), ss),
@@ -93,14 +127,14 @@ fn solve_and<'a>(ctx: &Ctx<'a>, gs: &Vec<Goal>, i: usize, level: usize, ss: &SS<
 
 /// the answers of `query` (at most `max`), each shown as the query with its variables replaced; None if the step limit was hit
 pub fn reference_answers(kb: &KnowledgeBase, query: &Goal, max: usize) -> Option<Vec<String>> {
-    let ctx = Ctx { kb, steps: Cell::new(0), limit: 20000, levels: Cell::new(0), cut_ran: std::cell::RefCell::new(std::collections::HashSet::new()) };
+    let ctx = Ctx { kb, steps: Cell::new(0), limit: 20000, levels: Cell::new(0), cut_ran: std::cell::RefCell::new(std::collections::HashSet::new()), cyclic: Cell::new(false) };
     let mut out: Vec<String> = vec![];
     let ss: SS = Rc::new(SubstitutionSet::new());
     let _ = solve(&ctx, query, 0, &ss, &mut |s| {
         out.push(format!("{}", query.replace_variables(s)));
         if out.len() >= max { Flow::Halt } else { Flow::Next }
     });
-    if ctx.steps.get() > ctx.limit { return None; }
+    if ctx.steps.get() > ctx.limit || ctx.cyclic.get() { return None; }
     Some(out)
 }
 
